@@ -62,12 +62,17 @@ def kernel(job):
 
 
 # ---------------------------------------------------------------- (b) histories in subprocesses
-def run_driver(pkg, work, jobs, tag):
+def zlib_crc(t):
+    import zlib
+    return zlib.crc32(str(t).encode())
+
+
+def run_driver(pkg, work, jobs, tag, hashseed=None):
     jf = os.path.join(work, f"jobs_{tag}.json")
     with open(jf, "w") as fh:
         json.dump(jobs, fh)
     p = subprocess.run([sys.executable, DRIVER, pkg, work, jf], capture_output=True, text=True, timeout=600,
-                       env=dict(os.environ, PYTHONHASHSEED="0", PYTHONDONTWRITEBYTECODE="1"))
+                       env=dict(os.environ, PYTHONHASHSEED=hashseed or str(1 + (zlib_crc(tag) % 4000000000)), PYTHONDONTWRITEBYTECODE="1"))      # every process its own hash seed, as Python does by default
     try:
         return json.loads(p.stdout)
     except Exception:
